@@ -368,4 +368,203 @@ example : hitEv (reportedLastKK { N := some 4, u := 1, t := 1/2, randomOrder := 
   C01_finite_kk _ 4 rfl (by simp) (1/20) (by norm_num) (by norm_num) [1, 0, 1/2, 0] rfl
     (by intro a ha; simp at ha; rcases ha with rfl | rfl | rfl | rfl <;> norm_num) (by norm_num)
 
+/-! ## the generalised Wald SPRT -/
+
+/-- the event: the p-value `wald_sprt` reports after the draws `h` is `≤ alpha` -/
+def reportedLastSprt (cfg : Cfg) (alpha : ℚ) (h : List ℚ) : Bool := lastLe alpha (waldSprt cfg h)
+
+/-- the alternative mean `wald_sprt` applies to the next draw, as a function of the draws so far:
+`min(u, (N eta − Σ h)/(N − |h|))`, or `eta` for independent draws (the factor then clips it to
+`[mu, u]`) -/
+def sprtG (cfg : Cfg) (h : List ℚ) : ℚ := Spec.sprtEta cfg.N cfg.u (C11.sprtEta cfg) h h.length
+
+theorem sprtEta_take (N : Option Nat) (u eta : ℚ) (x : List ℚ) (i : Nat) (hi : i ≤ x.length) :
+    Spec.sprtEta N u eta (x.take i) (x.take i).length = Spec.sprtEta N u eta x i := by
+  have hl : (x.take i).length = i := by rw [List.length_take]; omega
+  unfold Spec.sprtEta Spec.S
+  rw [List.take_length, hl]
+
+theorem sprtEta_le_u (N : Option Nat) (u eta : ℚ) (x : List ℚ) (i : Nat) (h : eta ≤ u) :
+    Spec.sprtEta N u eta x i ≤ u := by
+  unfold Spec.sprtEta
+  cases N with
+  | none => exact h
+  | some n => exact min_le_left _ _
+
+/-- wherever the null means do not exceed `u`, the ALPHA product with the SPRT's alternative is the
+published SPRT product -/
+theorem sprt_Tq_eq (cfg : Cfg) (x : List ℚ) (heu : C11.sprtEta cfg ≤ cfg.u)
+    (hreg : ∀ i < x.length, Spec.sprtMu cfg.N cfg.t x i ≤ cfg.u) :
+    Tq (alphaQ cfg.u) cfg.N cfg.t (sprtG cfg) x =
+      Spec.sprtT cfg.N cfg.u cfg.t (C11.sprtEta cfg) x x.length := by
+  rw [Tq_eq_prodTo, sprtT_eq]
+  apply prodTo_congr
+  intro i hi
+  have hm : mu cfg.N cfg.t (psum x i) (i + 1) = Spec.sprtMu cfg.N cfg.t x i := sprtMu_eq cfg x i
+  simp only [hm]
+  unfold sprtG
+  rw [sprtEta_take _ _ _ x i (le_of_lt hi)]
+  unfold alphaQ alphaFactorQ sprtPhi
+  rw [min_eq_right (max_le (sprtEta_le_u _ _ _ x i heu) (hreg i hi))]
+
+theorem sprtMu_last (cfg : Cfg) (l : List ℚ) (a : ℚ) :
+    C11.sprtMu cfg (l ++ [a]) l.length = muAfter cfg.N cfg.t l := by
+  unfold C11.sprtMu muAfter
+  rw [psum_append_left l [a] l.length (le_refl _), psum_length]
+
+/-- **link between the literal model and the defining product** (no probability here): on a sample
+satisfying the guard of `wald_sprt` whose last null mean is non-negative, if the last reported p-value
+is `≤ alpha < 1` then that null mean is strictly inside `(0,u)` and the ALPHA product with the SPRT's
+alternative is at least `1/alpha` -/
+theorem sprt_reported_implies_value (cfg : Cfg) (x : List ℚ) (G : SprtGuard cfg x)
+    (hm : 0 ≤ C11.sprtMu cfg x (x.length - 1))
+    (alpha : ℚ) (ha0 : 0 < alpha) (ha1 : alpha < 1) (hev : reportedLastSprt cfg alpha x = true) :
+    0 < C11.sprtMu cfg x (x.length - 1) ∧ C11.sprtMu cfg x (x.length - 1) < cfg.u ∧
+      1 / alpha ≤ Tq (alphaQ cfg.u) cfg.N cfg.t (sprtG cfg) x := by
+  have hpos : 0 < x.length := List.length_pos_iff.mpr G.ne
+  have hj : x.length - 1 < x.length := by omega
+  have hlen : x.length = (x.length - 1) + 1 := by omega
+  have hupos : 0 < cfg.u := lt_trans G.t_pos G.t_lt_u
+  obtain ⟨T, hT⟩ := getElem?_some_of_lt (l := XR.cumprod (sprtFactors cfg x)) (i := x.length - 1)
+    (by rw [cumprod_length, sprtFactors_length]; exact hj)
+  have hM := sprtMasked_getElem? cfg x G.fits (x.length - 1) T hj hT
+  unfold reportedLastSprt at hev
+  rw [sprt_eq cfg x G.ne G.range G.ro] at hev
+  have hle := lastLe_ok_map alpha _ (sprtMasked cfg x) (fun T => XR.npmin (1 : XR) ((1 : XR) / T))
+    (x.length - 1) _ (by rw [sprtMasked_length]; exact hlen) hM hev
+  -- the regular zone before the last index
+  have hregC := fun (h0 : 0 < C11.sprtMu cfg x (x.length - 1)) (hu : C11.sprtMu cfg x (x.length - 1) < cfg.u)
+    (i : Nat) (hi : i ≤ x.length - 1) => sprt_regular_before cfg x G (x.length - 1) hj h0 hu i hi
+  have hres := mask_le_alpha cfg.u (2 * eps) (1 / 1000000) (C11.sprtMu cfg x (x.length - 1))
+    (Spec.sprtT cfg.N cfg.u cfg.t (C11.sprtEta cfg) x ((x.length - 1) + 1)) alpha T hm hupos.le
+    (by have := C11.eps_pos; linarith) (by unfold eps; norm_num) (by norm_num) ha0 ha1
+    (by
+      intro h0 hu
+      have hreg : ∀ i ≤ x.length - 1, 0 < Spec.sprtMu cfg.N cfg.t x i ∧ Spec.sprtMu cfg.N cfg.t x i < cfg.u := by
+        intro i hi
+        have := hregC h0 hu i hi
+        rw [sprtMu_eq] at this
+        exact ⟨this.1, this.2.1⟩
+      have := sprtTerms_regular cfg x G.fits (x.length - 1) hj hreg
+      rw [hT] at this
+      exact Option.some.inj this)
+    (by
+      intro h0 hu
+      rw [sprtT_eq]
+      apply prodTo_nonneg
+      intro i hi
+      obtain ⟨hm0, hmu, he0, heu⟩ := hregC h0 hu i (by omega)
+      rw [sprtMu_eq] at hm0 hmu
+      rw [sprtEt_eq] at he0 heu
+      have hax := G.range _ (obs_mem (x := x) (i := i) (by omega))
+      exact sprtPhi_nonneg hax.1 hax.2 he0 heu hm0 hmu)
+    hle
+  obtain ⟨h0, hu, hge⟩ := hres
+  refine ⟨h0, hu, ?_⟩
+  rw [sprt_Tq_eq cfg x G.eta_le_u, hlen]
+  · exact hge
+  · intro i hi
+    have := (hregC h0 hu i (by omega)).2.1
+    rw [sprtMu_eq] at this
+    exact this.le
+
+theorem reportedLastSprt_nil (cfg : Cfg) (hro : cfg.N ≠ none → cfg.randomOrder = true) (alpha : ℚ) :
+    reportedLastSprt cfg alpha [] = false := by
+  unfold reportedLastSprt
+  rw [sprt_err_empty cfg hro]
+  rfl
+
+/-- **C01, generalised Wald SPRT, sampling without replacement.**  For every population `pop` of `n`
+values in `[0,u]` with total at most `n t`, every alternative `eta` with `t ≤ eta ≤ u` (`0 < t < u`;
+`random_order = True`, otherwise `wald_sprt` refuses a finite population) and every `alpha` in `(0,1)`,
+the exact probability — over the `n!` equally likely orders in which the items are drawn without
+replacement — that the p-value reported by `wald_sprt` after some number of draws is at most `alpha`
+is at most `alpha`. -/
+theorem C01_finite_sprt (cfg : Cfg) (n : Nat) (hN : cfg.N = some n) (hro : cfg.randomOrder = true)
+    (ht0 : 0 < cfg.t) (htu : cfg.t < cfg.u) (hte : cfg.t ≤ C11.sprtEta cfg) (heu : C11.sprtEta cfg ≤ cfg.u)
+    (alpha : ℚ) (ha0 : 0 < alpha) (ha1 : alpha < 1)
+    (pop : List ℚ) (hlen : pop.length = n) (hrange : ∀ a ∈ pop, 0 ≤ a ∧ a ≤ cfg.u)
+    (hnull : pop.sum ≤ (n : ℚ) * cfg.t) :
+    hitEv (reportedLastSprt cfg alpha) pop.length pop [] ≤ alpha := by
+  have h := process_ville (alphaQ cfg.u) cfg.u n cfg.t (sprtG cfg)
+    (fun h' a' _ _ hm0' hmu' ha0' hau' => alphaQ_nonneg cfg.u _ _ _ hm0' hmu' ha0' hau')
+    (fun h' R' _ _ hm0' hmu' hR' hr' hs' => alphaQ_super cfg.u _ _ R' hm0' hmu' hR' hr' hs')
+    (reportedLastSprt cfg alpha) (1 / alpha) (by positivity) ?_
+    pop ⟨by simp [hlen], hrange, by simp, by simpa using hnull⟩
+  · simpa using h
+  · intro R h hI hev
+    cases h using List.reverseRecOn with
+    | nil => rw [reportedLastSprt_nil cfg (fun _ => hro)] at hev; cases hev
+    | append_singleton l a _ =>
+      have hlen1 : l.length + 1 ≤ n := by
+        have := hI.1
+        simp only [List.length_append, List.length_cons, List.length_nil] at this; omega
+      have G : SprtGuard cfg (l ++ [a]) :=
+        { ne := by simp
+          range := hI.2.2.1
+          fits := by intro k hk; rw [hN] at hk; cases hk; simpa using hlen1
+          t_pos := ht0, t_lt_u := htu, t_le_eta := hte, eta_le_u := heu
+          ro := fun _ => hro }
+      have hlast : (l ++ [a]).length - 1 = l.length := by simp
+      have hmu : C11.sprtMu cfg (l ++ [a]) ((l ++ [a]).length - 1) = muAfter (some n) cfg.t l := by
+        rw [hlast, sprtMu_last, hN]
+      obtain ⟨hm0, hmu', hge⟩ := sprt_reported_implies_value cfg (l ++ [a]) G
+        (by rw [hmu]; exact muAfter_nonneg cfg.u n cfg.t R l a hI) alpha ha0 ha1 hev
+      rw [hmu] at hm0 hmu'
+      have hz : StateZ cfg.u n cfg.t l := (stateZ_iff cfg.u n cfg.t l hlen1).2 ⟨hm0, hmu'⟩
+      rw [hN] at hge
+      unfold valI
+      rw [if_neg (by simp), List.dropLast_concat, if_pos hz]
+      exact hge
+
+-- non-vacuity: N = 4, u = 1, t = 1/2, eta = 3/4, the null population 1, 0, 1/2, 0, alpha = 1/20
+example : hitEv (reportedLastSprt { N := some 4, u := 1, t := 1/2, randomOrder := true, kw := { eta := some (3/4) } }
+    (1/20)) 4 [1, 0, 1/2, 0] [] ≤ 1/20 :=
+  C01_finite_sprt _ 4 rfl rfl (by norm_num) (by norm_num) (by simp [C11.sprtEta]; norm_num)
+    (by simp [C11.sprtEta]; norm_num) (1/20) (by norm_num) (by norm_num) [1, 0, 1/2, 0] rfl
+    (by intro a ha; simp at ha; rcases ha with rfl | rfl | rfl | rfl <;> norm_num) (by norm_num)
+
+/-- **C01, generalised Wald SPRT, independent draws.**  For every finitely supported law `L` on
+`[0,u]` with mean at most `t`, every alternative `eta` with `t ≤ eta ≤ u` (`0 < t < u`), every horizon
+`n` and every `alpha` in `(0,1)`, the exact probability that the p-value reported by `wald_sprt`
+(`N = np.inf`) after some number `≤ n` of independent draws from `L` is at most `alpha` is at most `alpha`. -/
+theorem C01_iid_sprt (cfg : Cfg) (hN : cfg.N = none)
+    (ht0 : 0 < cfg.t) (htu : cfg.t < cfg.u) (hte : cfg.t ≤ C11.sprtEta cfg) (heu : C11.sprtEta cfg ≤ cfg.u)
+    (alpha : ℚ) (ha0 : 0 < alpha) (ha1 : alpha < 1)
+    (L : List (ℚ × ℚ)) (hL : IsLaw cfg.u L) (hmean : lawMean L ≤ cfg.t) (n : Nat) :
+    hitIID L (reportedLastSprt cfg alpha) n [] ≤ alpha := by
+  have h := process_ville_iid (alphaQ cfg.u) cfg.u cfg.t (sprtG cfg) L hL
+    (fun h' a' _ ha0' hau' => alphaQ_nonneg cfg.u _ _ _ ht0 htu ha0' hau')
+    (fun h' _ => alphaQ_super_iid cfg.u cfg.t (sprtG cfg h') ht0 htu L hL hmean)
+    (reportedLastSprt cfg alpha) (1 / alpha) (by positivity) ?_ n
+  · simpa using h
+  · intro h hr hev
+    have hro : cfg.N ≠ none → cfg.randomOrder = true := fun hne => absurd hN hne
+    cases h using List.reverseRecOn with
+    | nil => rw [reportedLastSprt_nil cfg hro] at hev; cases hev
+    | append_singleton l a _ =>
+      have G : SprtGuard cfg (l ++ [a]) :=
+        { ne := by simp
+          range := hr
+          fits := by intro k hk; rw [hN] at hk; cases hk
+          t_pos := ht0, t_lt_u := htu, t_le_eta := hte, eta_le_u := heu
+          ro := hro }
+      have hmu : C11.sprtMu cfg (l ++ [a]) ((l ++ [a]).length - 1) = cfg.t := by
+        unfold C11.sprtMu; rw [hN]; rfl
+      obtain ⟨_, _, hge⟩ := sprt_reported_implies_value cfg (l ++ [a]) G
+        (by rw [hmu]; exact ht0.le) alpha ha0 ha1 hev
+      rw [hN] at hge
+      exact hge
+
+-- non-vacuity: u = 1, t = 1/2, eta = 3/4, the law {0: 1/2, 1/2: 1/4, 1: 1/4} (mean 3/8), 5 draws
+example : hitIID [(0, 1/2), (1/2, 1/4), (1, 1/4)]
+    (reportedLastSprt { N := none, u := 1, t := 1/2, randomOrder := true, kw := { eta := some (3/4) } } (1/20))
+    5 [] ≤ 1/20 :=
+  C01_iid_sprt _ rfl (by norm_num) (by norm_num) (by simp [C11.sprtEta]; norm_num)
+    (by simp [C11.sprtEta]; norm_num) (1/20) (by norm_num) (by norm_num) _
+    ⟨by intro p hp; simp at hp; rcases hp with rfl | rfl | rfl <;> norm_num,
+     by norm_num,
+     by intro p hp; simp at hp; rcases hp with rfl | rfl | rfl <;> norm_num⟩
+    (by norm_num [lawMean, expL]) 5
+
 end Shangrla.C01
